@@ -724,6 +724,8 @@ class Ranges:
             self.store(s, t)
             return
         val = self.ev(s.value)
+        if isinstance(t, ast.Name) and isinstance(val, Unk) and self.int_of(s.value) is not None:
+            val = IntV(self.int_of(s.value))    # n = N[k] / r = rank[k+1]: a size with a name
         if isinstance(t, ast.Name) and isinstance(val, Unk) and self._intish(s.value):
             val = IntV(self.new_atom(t.id))     # a run-time integer (selected rank, ...): an unknown but fixed size
         if isinstance(t, ast.Name):
